@@ -114,6 +114,7 @@ namespace bxdecay0 {
   void event::reset()
   {
     _particles_.clear();
+    _generator_.clear();
     _time_ = std::numeric_limits<double>::quiet_NaN();
     return;
   }
